@@ -246,6 +246,21 @@ def rule_sites(ctx):
             ctx.ok("PANIC-TAB", "moved:%s|%s" % (f, kind), "%s:%s" % (f, l),
                    "%d site(s) of kind `%s` in %s: as many discharged sites of that kind left their listed functions in the same file (code motion / helper extraction)" % (extra, kind, fn), nontrivial=False)
             extra = 0
+        if extra > 0 and fn not in sym.known_functions():
+            # a function that did not exist when the table was written (a helper, a method of a new struct) in another file of the same
+            # module directory: it may hold sites that left the listed functions of that directory (`src/analyzing/*.rs`)
+            import os as _os
+            d_ = _os.path.dirname(f or "")
+            donors = [(f2, k2) for (f2, k2), n2 in slack.items() if k2 == kind and n2 > 0 and f2 and (_os.path.dirname(f2) == d_ or _os.path.dirname(f2).startswith(d_ + "/") or d_.startswith(_os.path.dirname(f2) + "/"))]
+            if sum(slack[x_] for x_ in donors) >= extra:
+                need = extra
+                for x_ in donors:
+                    take = min(need, slack[x_])
+                    slack[x_] -= take
+                    need -= take
+                ctx.ok("PANIC-TAB", "moved:%s|%s" % (f, kind), "%s:%s" % (f, l),
+                       "%d site(s) of kind `%s` in the new function %s: as many discharged sites of that kind left their listed functions in the same module directory" % (extra, kind, fn), nontrivial=False)
+                extra = 0
         if extra > 0 and kind == "index" and _regex_group_indexes(fx, fn) >= n:
             ctx.ok("PANIC-TAB", "regex-group:%s|%s" % (fn, kind), "%s:%s" % (f, l),
                    "%d index site(s) in %s read a named group of regex captures, and a regex literal of the same file has a group of that name" % (n, fn), nontrivial=False)
